@@ -11,7 +11,10 @@ reg("C10", "results depend only on the arguments (history, incremental objects, 
          "every handle compared with its model after every step, hazardous uses (const_iterator positions on shared "
          "storage, assignment to a moved-from handle) in forked children; (b) object copies (Db, DbGrid, Model, Vario, "
          "dense/sparse matrices, Polygons, NeighMoving, VarioParam, CovAniso, AnamHermite) by copy-ctor / clone / assignment after 0-2 prior modifications: "
-         "modify one side, digest the other, compare the modified side with an uncopied twin. c10_incremental: "
+         "modify one side, digest the other, compare the modified side with an uncopied twin; (c) Model / ACovAnisoList / "
+         "CovAniso copied (copy-ctor, clone, assignment) while the source is between optimizationPreProcess and "
+         "optimizationPostProcess (and outside, as control): the copy must answer plain and optimised covariance-matrix "
+         "requests like an object built from scratch, also after the source is post-processed or destroyed. c10_incremental: "
          "same-object histories against a twin built from scratch with the same final content: KrigingCalcul (setters in "
          "random order with replacement, 13 getters, mismatches delta-debugged), Model (edits interleaved with "
          "covariance-matrix requests, some failing), NeighMoving and KrigingSystem (targets in random order with repeats, "
@@ -20,15 +23,17 @@ reg("C10", "results depend only on the arguments (history, incremental objects, 
          "variograms, fit, simtub, simfft, gibbs, migrate, statistics, anamorphosis, PCA, seeded Db fillers, polygons, grid "
          "conversions, neutral-file round trip, law with seed, neighbourhood) digested first in a pristine forked process "
          "and again after a random prefix of 1-25 calls drawn from the catalogue and from 13 failing calls; documented "
-         "global options read through their getters around every prefix call; differences delta-debugged to a minimal "
+         "global options read through their getters around every prefix call; 35 % of the cases run entirely (reference and "
+         "history child alike) with law_set_old_style(false), and in those and 20 % of the others several calls of the "
+         "history are given the same seed argument as the observed call; differences delta-debugged to a minimal "
          "prefix. All inputs 2-D in the default space. distinct = (monitor, class / observed call, mode flags) with at "
          "least one evaluation",
     level="exploration",
     require=dict(distinct=60,
-                 oracles=dict(quick={"vec-model": 20000, "copy-indep": 2200, "copy-twin": 1600, "kcalc-twin": 1400,
+                 oracles=dict(quick={"vec-model": 18000, "copy-indep": 2000, "copy-twin": 1500, "copy-window": 120, "kcalc-twin": 1400,
                                      "model-twin": 800, "neigh-twin": 1800, "ksys-twin": 1700, "vario-twin": 220,
                                      "matrix-twin": 320, "db-twin": 500, "hist-digest": 300, "hist-options": 2000},
-                              thorough={"vec-model": 180000, "copy-indep": 16000, "copy-twin": 12000, "kcalc-twin": 13500,
+                              thorough={"vec-model": 180000, "copy-indep": 16000, "copy-twin": 12000, "copy-window": 900, "kcalc-twin": 13500,
                                         "model-twin": 7000, "neigh-twin": 18000, "ksys-twin": 16000, "vario-twin": 2100,
                                         "matrix-twin": 3300, "db-twin": 4800, "hist-digest": 2000, "hist-options": 15000})),
     assumptions=["fork() gives a faithful pristine process: the worker never calls the library outside forked children in c10_history",
